@@ -45,6 +45,7 @@ type Contract struct {
 	Entries    []*Clause
 	Modifies   []*Clause
 	PanicsWhen []*Clause
+	Measure    *Clause // function-level `decreases e`: termination measure of a recursive (lemma) function
 	Loops      map[string][]*Clause
 	Callbacks  map[string][]*Clause // function-typed parameter -> cb-requires / cb-modifies / cb-ensures
 	Spawns     map[string][]*Clause // go statement ordinal -> requires on the spawned literal's arguments
@@ -194,6 +195,9 @@ func parseContractFile(fset *token.FileSet, f *ast.File, pkgPath string) ([]*Con
 			all = append(all, c.Ensures...)
 			all = append(all, c.Entries...)
 			all = append(all, c.PanicsWhen...)
+			if c.Measure != nil {
+				all = append(all, c.Measure)
+			}
 			for _, l := range c.Loops {
 				all = append(all, l...)
 			}
@@ -356,6 +360,10 @@ func parseContractFile(fset *token.FileSet, f *ast.File, pkgPath string) ([]*Con
 			// depends on values read during the call (no obligation is generated for it)
 			// maypanic <errName> #k: only the k-th panic(<errName>) of the body, in source order
 			cur.MayPanic = append(cur.MayPanic, strings.TrimSpace(rest))
+		case "decreases":
+			// function-level measure: every recursive call must be made with a strictly smaller, non-negative value
+			cur.Measure = &Clause{Kind: "fdecreases", Text: rest, Line: ln.pos}
+			last = cur.Measure
 		case "panics":
 			r := strings.TrimSpace(strings.TrimPrefix(rest, "when"))
 			cur.PanicsWhen = append(cur.PanicsWhen, mk("panics", r))
@@ -837,7 +845,7 @@ func (vc *VC) compileClause(fi *FuncInfo, c *Clause) {
 			pos = l.Body.Lbrace + 1
 		}
 	} else {
-		params = vc.paramDecls(fi, c.Kind != "requires" && c.Kind != "entry" && c.Kind != "panics" && !strings.HasPrefix(c.Kind, "cb-"))
+		params = vc.paramDecls(fi, c.Kind != "requires" && c.Kind != "entry" && c.Kind != "fdecreases" && c.Kind != "panics" && !strings.HasPrefix(c.Kind, "cb-"))
 	}
 	if fi.Con != nil {
 		for _, g := range fi.Con.Ghosts {
@@ -890,7 +898,7 @@ func (vc *VC) compileClause(fi *FuncInfo, c *Clause) {
  	switch c.Kind {
 	case "modifies", "cb-modifies":
 		src = "func(" + strings.Join(params, ", ") + ") []any { return []any{" + text + "} }"
-	case "entry", "decreases":
+	case "entry", "decreases", "fdecreases":
 		src = "func(" + strings.Join(params, ", ") + ") any { return " + text + " }"
 	default:
 		src = "func(" + strings.Join(params, ", ") + ") bool { return " + text + " }"
